@@ -9,6 +9,8 @@ use tevec::export::ndarray::{Array1, ArrayView1, s};
 use tevec::prelude::*;
 use tvh_common::*;
 
+use crate::kern::Path;
+
 pub const X0: i64 = 10; // xs[i] = X0 + i
 pub const Y0: i64 = 1000; // ys[i] = Y0 + i
 const NONE: i64 = -1;
@@ -139,21 +141,27 @@ pub struct Run {
 }
 
 /// element forms: apply, idx, apply2, idx2
-pub fn run_elem<T, V, V2, O>(form: &str, v: &V, v2: &V2, w: usize, to: bool) -> Run
+pub fn run_elem<T, V, V2, O>(form: &str, v: &V, v2: &V2, w: usize, to: impl Into<Path>) -> Run
 where
     T: Code,
     V: Vec1View<T>,
     V2: Vec1View<T>,
-    O: OutVec,
+    O: OutVec + OutCont<i64>,
 {
     clear_log();
     let mut rec = Recorder::new();
     let len = v.len();
+    let path: Path = to.into();
     let out = catch(|| {
         let rec = &mut rec;
-        let mut buf = if to { Some(O::uninit(len)) } else { None };
+        let mut buf = if path == Path::To { Some(O::uninit(len)) } else { None };
+        let mut odd = if let Path::Odd(layout) = path { Some(<O as OutCont<i64>>::odd_alloc(layout, len)) } else { None };
         let ret: Option<O> = {
-            let o = buf.as_mut().map(|b| O::uninit_ref_mut(b));
+            let o = match (buf.as_mut(), odd.as_mut()) {
+                (Some(b), _) => Some(O::uninit_ref_mut(b)),
+                (_, Some(d)) => Some(<O as OutCont<i64>>::odd_ref(d)),
+                _ => None,
+            };
             match form {
                 "apply" => v.rolling_apply::<O, i64, _>(
                     w,
@@ -209,9 +217,13 @@ where
                 _ => unreachable!(),
             }
         };
-        match (ret, buf) {
-            (Some(o), None) => o.to_vec(),
-            (None, Some(b)) => unsafe { b.assume_init() }.to_vec(),
+        match (ret, buf, odd) {
+            (Some(o), None, None) => o.to_vec(),
+            (None, Some(b), None) => unsafe { b.assume_init() }.to_vec(),
+            (None, None, Some(d)) => match <O as OutCont<i64>>::odd_read(d) {
+                Ok(v) => v,
+                Err(e) => panic!("OUT-OF-BUFFER: {e}"),
+            },
             _ => panic!("driver returned both or neither of buffer and value"),
         }
     });
@@ -219,21 +231,27 @@ where
 }
 
 /// one-series slice forms: custom, citer
-pub fn run_slice1<'a, T, V, O>(form: &str, v: &'a V, w: usize, to: bool) -> Run
+pub fn run_slice1<'a, T, V, O>(form: &str, v: &'a V, w: usize, to: impl Into<Path>) -> Run
 where
     T: Code + 'a,
     V: Vec1View<T>,
-    O: OutVec,
+    O: OutVec + OutCont<i64>,
     V::SliceOutput<'a>: SliceItems,
 {
     clear_log();
     let mut rec = Recorder::new();
     let len = v.len();
+    let path: Path = to.into();
     let out = catch(|| {
         let rec = &mut rec;
-        let mut buf = if to { Some(O::uninit(len)) } else { None };
+        let mut buf = if path == Path::To { Some(O::uninit(len)) } else { None };
+        let mut odd = if let Path::Odd(layout) = path { Some(<O as OutCont<i64>>::odd_alloc(layout, len)) } else { None };
         let ret: Option<O> = {
-            let o = buf.as_mut().map(|b| O::uninit_ref_mut(b));
+            let o = match (buf.as_mut(), odd.as_mut()) {
+                (Some(b), _) => Some(O::uninit_ref_mut(b)),
+                (_, Some(d)) => Some(<O as OutCont<i64>>::odd_ref(d)),
+                _ => None,
+            };
             match form {
                 "custom" => v.rolling_custom::<O, i64, _>(
                     w,
@@ -257,9 +275,13 @@ where
                 _ => unreachable!(),
             }
         };
-        match (ret, buf) {
-            (Some(o), None) => o.to_vec(),
-            (None, Some(b)) => unsafe { b.assume_init() }.to_vec(),
+        match (ret, buf, odd) {
+            (Some(o), None, None) => o.to_vec(),
+            (None, Some(b), None) => unsafe { b.assume_init() }.to_vec(),
+            (None, None, Some(d)) => match <O as OutCont<i64>>::odd_read(d) {
+                Ok(v) => v,
+                Err(e) => panic!("OUT-OF-BUFFER: {e}"),
+            },
             _ => panic!("driver returned both or neither of buffer and value"),
         }
     });
@@ -267,23 +289,29 @@ where
 }
 
 /// two-series slice form: custom2
-pub fn run_slice2<T, V, V2, O>(v: &V, v2: &V2, w: usize, to: bool) -> Run
+pub fn run_slice2<T, V, V2, O>(v: &V, v2: &V2, w: usize, to: impl Into<Path>) -> Run
 where
     T: Code,
     V: Vec1View<T>,
     V2: Vec1View<T>,
-    O: OutVec,
+    O: OutVec + OutCont<i64>,
     for<'a> V::SliceOutput<'a>: SliceItems,
     for<'a> V2::SliceOutput<'a>: SliceItems,
 {
     clear_log();
     let mut rec = Recorder::new();
     let len = v.len();
+    let path: Path = to.into();
     let out = catch(|| {
         let rec = &mut rec;
-        let mut buf = if to { Some(O::uninit(len)) } else { None };
+        let mut buf = if path == Path::To { Some(O::uninit(len)) } else { None };
+        let mut odd = if let Path::Odd(layout) = path { Some(<O as OutCont<i64>>::odd_alloc(layout, len)) } else { None };
         let ret: Option<O> = {
-            let o = buf.as_mut().map(|b| O::uninit_ref_mut(b));
+            let o = match (buf.as_mut(), odd.as_mut()) {
+                (Some(b), _) => Some(O::uninit_ref_mut(b)),
+                (_, Some(d)) => Some(<O as OutCont<i64>>::odd_ref(d)),
+                _ => None,
+            };
             v.rolling2_custom::<O, i64, V2, T, _>(
                 v2,
                 w,
@@ -296,9 +324,13 @@ where
                 o,
             )
         };
-        match (ret, buf) {
-            (Some(o), None) => o.to_vec(),
-            (None, Some(b)) => unsafe { b.assume_init() }.to_vec(),
+        match (ret, buf, odd) {
+            (Some(o), None, None) => o.to_vec(),
+            (None, Some(b), None) => unsafe { b.assume_init() }.to_vec(),
+            (None, None, Some(d)) => match <O as OutCont<i64>>::odd_read(d) {
+                Ok(v) => v,
+                Err(e) => panic!("OUT-OF-BUFFER: {e}"),
+            },
             _ => panic!("driver returned both or neither of buffer and value"),
         }
     });
@@ -478,9 +510,21 @@ pub fn for_each_cell(case: &Case, full: bool, mut f: impl FnMut(&str, Run)) {
                 } else if is_slicing(form) {
                     f(&format!("{}->Vec/{}", $name, p), run_slice1::<$T, _, Vec<i64>>(form, &v, w, to));
                     f(&format!("{}->SpyOut/{}", $name, p), run_slice1::<$T, _, SpyOut<i64>>(form, &v, w, to));
+                    if to {
+                        f(&format!("{}->VecDeque/to(wrapped ring)", $name), run_slice1::<$T, _, VecDeque<i64>>(form, &v, w, Path::Odd(0)));
+                        f(&format!("{}->Array1/to(step 2 view)", $name), run_slice1::<$T, _, Array1<i64>>(form, &v, w, Path::Odd(0)));
+                        f(&format!("{}->Array1/to(reversed view)", $name), run_slice1::<$T, _, Array1<i64>>(form, &v, w, Path::Odd(1)));
+                    }
                 } else {
                     f(&format!("{}->Vec/{}", $name, p), run_elem::<$T, _, _, Vec<i64>>(form, &v, &v2, w, to));
                     f(&format!("{}->SpyOut/{}", $name, p), run_elem::<$T, _, _, SpyOut<i64>>(form, &v, &v2, w, to));
+                    if to {
+                        // caller-supplied buffers in layouts the library does not allocate itself
+                        f(&format!("{}->Vec/to(sub-slice)", $name), run_elem::<$T, _, _, Vec<i64>>(form, &v, &v2, w, Path::Odd(0)));
+                        f(&format!("{}->VecDeque/to(wrapped ring)", $name), run_elem::<$T, _, _, VecDeque<i64>>(form, &v, &v2, w, Path::Odd(0)));
+                        f(&format!("{}->Array1/to(step 2 view)", $name), run_elem::<$T, _, _, Array1<i64>>(form, &v, &v2, w, Path::Odd(0)));
+                        f(&format!("{}->Array1/to(reversed view)", $name), run_elem::<$T, _, _, Array1<i64>>(form, &v, &v2, w, Path::Odd(1)));
+                    }
                     if full {
                         f(&format!("{}->VecDeque/{}", $name, p), run_elem::<$T, _, _, VecDeque<i64>>(form, &v, &v2, w, to));
                         f(&format!("{}->Array1/{}", $name, p), run_elem::<$T, _, _, Array1<i64>>(form, &v, &v2, w, to));
@@ -491,6 +535,10 @@ pub fn for_each_cell(case: &Case, full: bool, mut f: impl FnMut(&str, Run)) {
         (@c2 true, $name:expr, $T:ty, $v:ident, $v2:ident, $p:ident, $to:ident) => {
             f(&format!("{}->Vec/{}", $name, $p), run_slice2::<$T, _, _, Vec<i64>>(&$v, &$v2, w, $to));
             f(&format!("{}->SpyOut/{}", $name, $p), run_slice2::<$T, _, _, SpyOut<i64>>(&$v, &$v2, w, $to));
+            if $to {
+                f(&format!("{}->VecDeque/to(wrapped ring)", $name), run_slice2::<$T, _, _, VecDeque<i64>>(&$v, &$v2, w, Path::Odd(0)));
+                f(&format!("{}->Array1/to(step 3 view)", $name), run_slice2::<$T, _, _, Array1<i64>>(&$v, &$v2, w, Path::Odd(2)));
+            }
         };
         (@c2 false, $name:expr, $T:ty, $v:ident, $v2:ident, $p:ident, $to:ident) => {
             // borrowed ndarray views cannot satisfy the higher-ranked slice bound of rolling2_custom
